@@ -87,25 +87,39 @@ MinTimeLock == 50
 MaxTimeLock == 34560
 
 -----------------------------------------------------------------------------
+(* Findings of this specification that have been repaired in /repo.  The
+   transcriptions below follow the UNREPAIRED code for ids not listed here and
+   the patches proposed in findings/params.md for ids listed — edit this one
+   line when a fix: commit lands (strict mode reports the difference as drift
+   until then). *)
+Fixed == {}
+
+-----------------------------------------------------------------------------
 (* Params.Validate per module *)
 
 (* coinswap/types/params.go *)
 Validate_coinswap(p) == FirstBad(<<
   Chk(DecNil(p.fee), ~(DecGT0(p.fee) /\ DecLT1(p.fee))),
-  Chk(CoinAmtNil(p.pcf), ~CoinAmtPos(p.pcf)),                       \* IsPositive only: denom unchecked (F18)
+  IF "F18" \in Fixed
+  THEN (IF CoinDenomOK(p.pcf) /\ CoinAmtPos(p.pcf) THEN "ok" ELSE "err")   \* !IsValid() || !IsPositive()
+  ELSE Chk(CoinAmtNil(p.pcf), ~CoinAmtPos(p.pcf)),                  \* IsPositive only: denom unchecked (F18)
   Chk(DecNil(p.tax), ~(DecGT0(p.tax) /\ DecLT1(p.tax))),
   Chk(DecNil(p.uni), ~(~DecLT0(p.uni) /\ DecLT1(p.uni))) >>)
 
 (* farm/types/params.go: only validatePoolCreationFee (Coin.IsValid); tax rate
    and max reward categories are not looked at (F14) *)
 Validate_farm(p) ==
-  IF CoinDenomOK(p.fee) /\ ~CoinAmtNil(p.fee) /\ ~CoinAmtNeg(p.fee) THEN "ok" ELSE "err"
+  IF ~(CoinDenomOK(p.fee) /\ ~CoinAmtNil(p.fee) /\ ~CoinAmtNeg(p.fee)) THEN "err"
+  ELSE IF "F14" \in Fixed /\ ~(DecGT0(p.tax) /\ DecLT1(p.tax)) THEN "err"   \* validateTaxRate with a nil guard
+  ELSE "ok"
 
 (* token/types/v1/params.go *)
 Validate_token(p) == FirstBad(<<
   Chk(DecNil(p.tax), DecGT1(p.tax) \/ DecLT0(p.tax)),
   Chk(DecNil(p.ratio), DecGT1(p.ratio) \/ DecLT0(p.ratio)),
-  Chk(CoinAmtNil(p.fee), CoinAmtNeg(p.fee)),                         \* IsNegative only: denom unchecked (F19)
+  IF "F19" \in Fixed
+  THEN (IF CoinDenomOK(p.fee) /\ ~CoinAmtNil(p.fee) /\ ~CoinAmtNeg(p.fee) THEN "ok" ELSE "err")   \* !IsValid()
+  ELSE Chk(CoinAmtNil(p.fee), CoinAmtNeg(p.fee)),                    \* IsNegative only: denom unchecked (F19)
   IF p.beacon = "bad" THEN "err" ELSE "ok" >>)
 
 (* service/types/params.go; sdk.Coins.IsValid for one coin: denom, then IsPositive *)
@@ -294,8 +308,9 @@ HtOut(p, amt, lock, supply) ==
   LET a == AssetOf(p, "ok") IN
   IF a.denom = "none" \/ ~a.active \/ ~InRange(a, amt) THEN Rej
   ELSE IF lock < LockRep(a.minlock) \/ lock > LockRep(a.maxlock) THEN Rej
-  ELSE IF FeeRep(a) + MinSwapRep(a) > MaxRep THEN Pan("htlc:fixedfee:" \o a.fee)   \* asset.FixedFee.Add(asset.MinSwapAmount)
-  ELSE IF amt < FeeRep(a) + MinSwapRep(a) \/ ~supply THEN Rej ELSE OkR
+  ELSE IF "F21" \notin Fixed /\ FeeRep(a) + MinSwapRep(a) > MaxRep
+       THEN Pan("htlc:fixedfee:" \o a.fee)                          \* asset.FixedFee.Add(asset.MinSwapAmount)
+  ELSE IF amt - MinSwapRep(a) < FeeRep(a) \/ ~supply THEN Rej ELSE OkR
 HtClaimIn(p, created) ==
   LET a == AssetOf(p, "ok") IN
   IF ~created \/ a.denom = "none" \/ ~LimitOK(a) THEN Rej ELSE OkR
